@@ -328,7 +328,7 @@ def riks_first_point(ctx):
                 f"`{got}`: the returned point violates equilibrium by the whole load difference", f"{ST}:{first[tname].lineno}")
 
 
-def newton_rows(ctx):
+def newton_rows(ctx, rule="C23.R6"):
     rep = ctx.rep
     fn = ctx.repo.get(ST, "Newton.solve")
     init = ctx.repo.get(ST, "Newton.__init__")
@@ -342,26 +342,26 @@ def newton_rows(ctx):
     # -- a. the loop covers rows 0 .. nt-1
     rngs = _resolve_ranges(fn, loop.iter)
     if not rngs:
-        rep.bad("C23.R6", C, loop.iter, "the load-step loop does not iterate over a range(...) the analysis can bound: which load steps are solved is unknown", f"{ST}:{loop.lineno}")
+        rep.bad(rule, C, loop.iter, "the load-step loop does not iterate over a range(...) the analysis can bound: which load steps are solved is unknown", f"{ST}:{loop.lineno}")
     for r in rngs or []:
         a = r.args
         start = ast.Constant(0) if len(a) == 1 else a[0]
         stop = a[0] if len(a) == 1 else a[1]
         step_ok = len(a) < 3 or (isinstance(a[2], ast.Constant) and a[2].value == 1)
         if not (isinstance(start, ast.Constant) and start.value == 0):
-            rep.bad("C23.R6", C, r, f"the load-step loop starts at `{norm_src(start)}`, but the returned rows start at row 0: the first returned load step(s) are never solved "
+            rep.bad(rule, C, r, f"the load-step loop starts at `{norm_src(start)}`, but the returned rows start at row 0: the first returned load step(s) are never solved "
                     "(they are the raw initial guess, not an equilibrium, and step_callback is not applied to them)", f"{ST}:{r.lineno}")
         elif norm_src(stop) not in ("self.nt", "len(self.load_steps)") or not step_ok:
-            rep.bad("C23.R6", C, r, f"the load-step loop runs to `{norm_src(stop)}` (step 1 expected up to self.nt): returned rows beyond it are not solved", f"{ST}:{r.lineno}")
+            rep.bad(rule, C, r, f"the load-step loop runs to `{norm_src(stop)}` (step 1 expected up to self.nt): returned rows beyond it are not solved", f"{ST}:{r.lineno}")
         else:
-            rep.ok("C23.R6", C, f"load-step loop: {norm_src(r)} covers rows 0 .. self.nt - 1")
+            rep.ok(rule, C, f"load-step loop: {norm_src(r)} covers rows 0 .. self.nt - 1")
     nt_ok = any(isinstance(n, ast.Assign) and norm_src(n.targets[0]) == "self.nt" and norm_src(n.value) == "len(self.load_steps)" for n in ast.walk(init))
     x_ok = any(isinstance(n, ast.Assign) and norm_src(n.targets[0]) == "self.x" and isinstance(n.value, ast.Call) and n.value.args
                and isinstance(n.value.args[0], ast.Tuple) and norm_src(n.value.args[0].elts[0]) == "self.nt" for n in ast.walk(init))
     if nt_ok and x_ok:
-        rep.ok("C23.R6", f"{ST}:Newton.__init__", "self.nt = len(self.load_steps) and self.x has self.nt rows")
+        rep.ok(rule, f"{ST}:Newton.__init__", "self.nt = len(self.load_steps) and self.x has self.nt rows")
     else:
-        rep.bad("C23.R6", f"{ST}:Newton.__init__", "self.nt / self.x", "self.nt is not len(self.load_steps) or self.x does not have self.nt rows: loop range, load levels and stored rows no longer "
+        rep.bad(rule, f"{ST}:Newton.__init__", "self.nt / self.x", "self.nt is not len(self.load_steps) or self.x does not have self.nt rows: loop range, load levels and stored rows no longer "
                 "index the same set", f"{ST}:{init.lineno}")
     # -- b. row i is the fsolve result at load level load_steps[i]
     solves = [n for n in loop.body if isinstance(n, ast.Assign) and isinstance(n.value, ast.Call) and dotted(n.value.func) == "fsolve"]
@@ -373,15 +373,15 @@ def newton_rows(ctx):
     fa = {k.arg: norm_src(k.value) for k in sv.value.keywords}
     lvl = f"(self.load_steps[{var}],)"
     if x0 == f"self.x[{var}]" and fa.get("fun_args") == lvl and fa.get("jac_args", lvl) == lvl:
-        rep.ok("C23.R6", C, f"row {var} is solved at load level self.load_steps[{var}] starting from self.x[{var}]")
+        rep.ok(rule, C, f"row {var} is solved at load level self.load_steps[{var}] starting from self.x[{var}]")
     else:
-        rep.bad("C23.R6", C, sv, f"the solve of row `{var}` does not use self.x[{var}] with load level self.load_steps[{var}] for residual and Jacobian alike "
+        rep.bad(rule, C, sv, f"the solve of row `{var}` does not use self.x[{var}] with load level self.load_steps[{var}] for residual and Jacobian alike "
                 f"(initial guess {x0}, fun_args {fa.get('fun_args')}, jac_args {fa.get('jac_args')})", f"{ST}:{sv.lineno}")
     wr = [n for n in loop.body if isinstance(n, ast.Assign) and norm_src(n.targets[0]) == f"self.x[{var}]" and norm_src(n.value) == f"{solname}.x"]
     if wr and loop.body.index(wr[0]) > loop.body.index(sv):
-        rep.ok("C23.R6", C, f"self.x[{var}] = {solname}.x on every iteration (top level of the loop, after the solve)")
+        rep.ok(rule, C, f"self.x[{var}] = {solname}.x on every iteration (top level of the loop, after the solve)")
     else:
-        rep.bad("C23.R6", C, sv, f"the result of the solve is not written to self.x[{var}] on every iteration", f"{ST}:{sv.lineno}")
+        rep.bad(rule, C, sv, f"the result of the solve is not written to self.x[{var}] on every iteration", f"{ST}:{sv.lineno}")
     # -- c. returned slices (a return may delegate to a helper method that builds the Solution from a row count)
     for call, in_loop, subst, where in solution_sites(ctx, fn, loop):
         want_hi = var if in_loop else f"{var} + 1"
@@ -389,15 +389,15 @@ def newton_rows(ctx):
         for sub in [w for w in ast.walk(call) if isinstance(w, ast.Subscript) and norm_src(w.value) in ("self.x", "self.load_steps")]:
             sl = sub.slice.elts[0] if isinstance(sub.slice, ast.Tuple) else sub.slice
             if not isinstance(sl, ast.Slice):
-                rep.bad("C23.R6", C, sub, "returned rows are not selected by a slice", f"{ST}:{sub.lineno}")
+                rep.bad(rule, C, sub, "returned rows are not selected by a slice", f"{ST}:{sub.lineno}")
                 continue
             lo = None if sl.lower is None else subst(norm_src(sl.lower))
             hi = None if sl.upper is None else subst(norm_src(sl.upper))
             if lo in (None, "0") and hi in (want_hi, alt_hi) and hi is not None and sl.step is None:
-                rep.ok("C23.R6", C, f"{'early' if in_loop else 'final'} return{where}: {norm_src(sub)} = rows 0 .. {hi} - 1, all solved"
+                rep.ok(rule, C, f"{'early' if in_loop else 'final'} return{where}: {norm_src(sub)} = rows 0 .. {hi} - 1, all solved"
                        + ("" if not in_loop else " (the failed row is excluded)"))
             else:
-                rep.bad("C23.R6", C, sub, f"the {'early' if in_loop else 'final'} return{where} selects rows [{lo or 0}:{hi}] but the solved rows are [0:{want_hi}]"
+                rep.bad(rule, C, sub, f"the {'early' if in_loop else 'final'} return{where} selects rows [{lo or 0}:{hi}] but the solved rows are [0:{want_hi}]"
                         + (" (the early return must drop the unconverged row)" if in_loop else ""), f"{ST}:{sub.lineno}")
 
 
